@@ -89,8 +89,11 @@ def run_upsert(inst):
     cls = dict(BaseMatching=BaseMatching, DistanceMatching=DistanceMatching)[inst[1]]
     layer = inst[2]
 
+    import types
+    stub = types.SimpleNamespace(expand_now=0, only_edges=True)     # the entries' matcher: only plain attributes are needed here
+
     def mk(eng, tag, a, b, prev):
-        return cls(None, Segment(a, (0, 0), b, (0, 1)), Segment("O1", (0, 0)), logprob=eng.fresh(f"lp_{tag}"),
+        return cls(stub, Segment(a, (0, 0), b, (0, 1)), Segment("O1", (0, 0)), logprob=eng.fresh(f"lp_{tag}"),
                    logprobe=eng.fresh(f"lpe_{tag}"), logprobne=0, obs=1, obs_ne=layer, stop=bool(eng.fresh_bool(f"stop_{tag}")),
                    length=2, delayed=eng.choose(2, tag=f"delayed_{tag}"), prev={prev}, dist_obs=eng.fresh(f"d_{tag}"))
 
@@ -134,6 +137,8 @@ def run_upsert(inst):
         return cl
 
     def confirm(eng, model, v, cname):
+        if not isinstance(v, dict):
+            return dict(desc=f"LatticeColumn.upsert ({inst[1]}, layer {layer}) raised {type(v).__name__}: {v}", kind='upsert_exception')
         return dict(desc=f"LatticeColumn.upsert ({inst[1]}, layer {layer}): {cname} fails with existing score "
                          f"{E.model_value(model, E.lift(v['cf']['logprob']))} stop={v['cf']['stop']}, new score "
                          f"{E.model_value(model, E.lift(v['nf']['logprob']))} stop={v['nf']['stop']}, same_key={v['same_key']}",
